@@ -184,6 +184,33 @@ def resolveMode (mode : Mode) (tmap : List (Nat × String)) (qmap : List (Nat ×
     (defaultTargetResolutions body).map fun dt =>
       resolveWith (fun k => lookupS k dt) (fun k => lookupN k qmap) body
 
+/-- One call of the resolution API: which of the four entry points, and the custom tables. -/
+structure Call where
+  mode : Mode
+  tmap : List (Nat × String)
+  qmap : List (Nat × Nat)
+  deriving Repr
+
+/-- A sequence of resolution calls on the same program: each call works on the body the previous
+one left.  Returns the body after every call. -/
+def resolveSeq : List Call → List Instr → Option (List (List Instr))
+  | [], _ => some []
+  | c :: rest, body =>
+    match resolveMode c.mode c.tmap c.qmap body with
+    | none => none
+    | some out =>
+      match resolveSeq rest out with
+      | none => none
+      | some outs => some (out :: outs)
+
+/-- The `used_qubits` cache: `add_instruction` extends it with `get_qubits()` of every instruction
+added (mod.rs:238-239) and `resolve_placeholders_with_custom_resolvers` ends with
+`rebuild_used_qubits()` = `get_qubits()` over `to_instructions()` (mod.rs:824-830, 936).  `defQs`
+are the qubits `get_qubits` reports for the definitions (calibrations), which resolution never
+touches. -/
+def usedQubitsOf (defQs : List Qubit) (body : List Instr) : List Qubit :=
+  defQs ++ body.flatMap Instr.getQubits
+
 /-- `Program::resolve_placeholders` (mod.rs:425-435) -/
 def resolvePlaceholders (body : List Instr) : Option (List Instr) := resolveMode .default [] [] body
 
